@@ -188,4 +188,26 @@ Proof.
   - apply bytes_eqb_neq in E. rewrite (HoS k E), (HoA k E). reflexivity.
 Qed.
 
+
+(* ---------- whole sessions ---------- *)
+(* every operation except opening a KEYED streamed writer (the async one ignores the declared size: no mapping) *)
+Definition fl_free (o : op) : bool := match o with OOpen _ _ (Some _) _ => false | _ => true end.
+
+Lemma step_any_flavour s o now fl : fl_free o = true -> step hash s (reflavour fl o) now = step hash s o now.
+Proof.
+  intros Hf. destruct (fl_sensitive o) eqn:E; [|apply step_flavour_blind; exact E].
+  destruct o; cbn [fl_sensitive fl_free] in *; try discriminate.
+  - (* OWrite *) cbn [reflavour step]. unfold runv. destruct fl, fl0; try reflexivity; [rewrite <- write_flavour|rewrite write_flavour]; reflexivity.
+  - destruct key; discriminate.
+Qed.
+
+(* any assignment of sync / async to the calls of a session gives the same answers and the same final state *)
+Theorem run_ops_any_flavour (g : op -> flavour) ops : forall s i,
+  forallb fl_free ops = true -> run_ops hash s (map (fun o => reflavour (g o) o) ops) i = run_ops hash s ops i.
+Proof.
+  induction ops as [|o ops IH]; intros s i H; cbn [map run_ops forallb] in *; [reflexivity|].
+  apply andb_true_iff in H as [H1 H2]. rewrite (step_any_flavour s o (pseudo_now i) (g o) H1).
+  destruct (step hash s o (pseudo_now i)) as [r s']. rewrite (IH s' (i + 1) H2). reflexivity.
+Qed.
+
 End Fl.
